@@ -85,7 +85,8 @@ deriving Repr
 inductive DL (F E : Type) where
   | none (drop : Nat) (exp : Option Nat)
   | frame (drop : Nat) (f : F)
-  | error (drop : Nat) (e : E)
+  /-- `exp` = the memo as the loop left it (`None` once an unknown frame was skipped) -/
+  | error (drop : Nat) (exp : Option Nat) (e : E)
 
 /-- `if let Some(min) = self.expected { if src.remaining() < min { return Ok(None) } }` -/
 def expBlocks (exp : Option Nat) (len : Nat) : Bool :=
@@ -104,7 +105,7 @@ def decLoop {F E} (D : Dec F E) : Nat → Bytes → Option Nat → Nat → DL F 
       | .unknown n => decLoop D fuel (flat.drop n) none (dropped + n)
       | .incomplete m => .none dropped (some m)
       | .frame f n => .frame (dropped + n) f
-      | .error e => .error dropped e
+      | .error e => .error dropped exp e
 
 variable {F E : Type}
 
@@ -127,7 +128,7 @@ def afterRecv (D : Dec F E) (s : St) (e : End) : Option (Out F E × St) :=
   match decLoop D (s.flat.length + 1) s.flat s.expected 0 with
   | .frame d f =>
     some (.frame f, ({ s with buf := advance d s.buf, expected := none }).applyKind (D.kind f))
-  | .error d e' => some (.errProto e', { s with buf := advance d s.buf })
+  | .error d exp e' => some (.errProto e', { s with buf := advance d s.buf, expected := exp })
   | .none d exp =>
     let s' := { s with buf := advance d s.buf, expected := exp }
     match e with
